@@ -90,6 +90,22 @@ Theorem v2_local_header_any_segmentation : forall fp body payload cs,
 Proof. exact v2_local_header_any_segmentation_proof. Qed.
 Print Assumptions v2_local_header_any_segmentation.
 
+(** [wfeed_tagged] attaches to every byte passed to the wrapped protocol the addresses getPeer()/getHost() report to it
+    WHILE it receives that byte.  For every stream and segmentation -- in particular when the end of the header and the
+    first application bytes arrive in one delivery -- every delivered byte already sees the header's addresses: the ones
+    reported at the end, never "none yet" *)
+Theorem addresses_known_before_first_byte : forall cs t,
+  In t (fst (run wfeed_tagged winit cs)) ->
+  fst t = final_info (snd (run wfeed_tagged winit cs)) /\ fst t <> None.
+Proof. exact addresses_known_before_first_byte_proof. Qed.
+Print Assumptions addresses_known_before_first_byte.
+
+(** ... where the tagged run delivers the same bytes and ends in the same state as the plain one *)
+Theorem tagged_run_is_run : forall cs s,
+  map snd (fst (run wfeed_tagged s cs)) = fst (run wfeed s cs) /\ snd (run wfeed_tagged s cs) = snd (run wfeed s cs).
+Proof. exact tagged_run_is_run_proof. Qed.
+Print Assumptions tagged_run_is_run.
+
 (** the wrapper as it is at the pinned commit closes a valid connection whose first delivery has
     fewer than 8 bytes, although it accepts the same stream delivered at once (finding F19) *)
 Theorem short_first_chunk_refuted : exists cs1 cs2,
